@@ -163,8 +163,40 @@ def oracle(suite, case, impl):
     outs = G.parse_out(impl)
     rem = [b["em_rem"] for b in c["banks"]]
     held = {}     # (acct, bank) -> outstanding
+    # 'in proportion to position size, time and rate': what a single operation credits is bounded by the position's amount
+    # before it x rate x the time since the LAST operation on that position (every operation claims first)
+    now = c.get("now", 0)
+    svs = [(b["asv"], b["lsv"]) for b in c["banks"]]
+    touch = {}    # (acct, bank) -> (time of the last successful operation on the position, asset shares, liability shares)
     for op, (res, bank, acct) in zip(c["ops"], outs):
         k = op[0]
+        if k == 0:
+            now = op[1]
+        if res[0] == "OK" and bank is not None and k not in (0, 14) and len(op) >= 3 and k not in (10, 11, 15):
+            a_i0, b_i0 = op[1], op[2]
+            t0 = touch.get((a_i0, b_i0))
+            credited0 = rem[b_i0] - bank["em_rem"] if 0 <= b_i0 < len(rem) else 0
+            if credited0 > 0:
+                if t0 is None:
+                    bound = 0
+                else:
+                    asv0, lsv0 = svs[b_i0]
+                    amt_bits = max(t0[1] * asv0, t0[2] * lsv0) // ONE            # amount in I80F48 bits
+                    dt = max(0, now - t0[0])
+                    dec = 9 if c["banks"][b_i0]["tag"] == 4 else c["banks"][b_i0]["decimals"]      # (staked banks: the harness fixes 9 decimals)
+                    bound = amt_bits * dt * c["banks"][b_i0]["em_rate"] // (G.YEAR * 10 ** dec)
+                    bound += bound // 10 ** 9 + (1 << 20)
+                if credited0 > bound:
+                    return {"key": "emissions-not-proportional",
+                            "what": f"{G.OPN[k]} credited {credited0} bits of emissions; bound from the position before it "
+                                    f"(time since its last operation, its amount, the rate) is {bound}"}
+        if res[0] == "OK" and bank is not None and k in (10, 11) and len(op) >= 2 and 0 <= op[1] < len(svs):
+            svs[op[1]] = (bank["asv"], bank["lsv"])
+        if res[0] == "OK" and bank is not None and acct is not None and k not in (0, 10, 11, 14, 15) and len(op) >= 3:
+            sl = [x for x in acct if x["bank"] == op[2] + 1]
+            touch[(op[1], op[2])] = (now, sl[0]["a"], sl[0]["l"]) if sl else None
+            if 0 <= op[2] < len(svs):
+                svs[op[2]] = (bank["asv"], bank["lsv"])
         if res[0] != "OK" or bank is None or k in (0, 14, 10, 11, 15):
             if bank is not None and k in (10, 11, 15) and res[0] == "OK" and bank["em_rem"] != rem[op[1]]:
                 return {"key": "emissions-changed-by-bank-op", "what": f"{G.OPN[k]} changed emissions_remaining"}
